@@ -1,4 +1,5 @@
 CONSTANT Want = {"c16"}
+CONSTANT Conform = FALSE
 INIT TraceInit
 NEXT TraceNext
 INVARIANTS C16_Multivariant
